@@ -1,6 +1,7 @@
 package harness
 
 import (
+	"bytes"
 	"fmt"
 	"strings"
 	"testing"
@@ -40,6 +41,12 @@ func TestC17(t *testing.T) {
 			payload := rng.Bytes(ll)
 			c17Wrap(m, v, rng, et, key, usage, flags, seq, payload, (l/step)%5 == 0 || Thorough())
 			c17Mic(m, v, rng, et, key, usage, flags, seq, payload, (l/step)%5 == 0 || Thorough())
+		}
+		// the empty message (a Wrap token that is header and checksum only; a MIC over nothing)
+		for _, fl := range []byte{0, 1, 5} {
+			key := randKey(rng, et)
+			c17Wrap(m, v, rng, et, key, usages[int(fl)%4], fl, 7, []byte{}, true)
+			c17Mic(m, v, rng, et, key, usages[int(fl)%4], fl, 7, []byte{}, true)
 		}
 		// all flags x all seqs x both token kinds x all usages on a short payload
 		for flags := 0; flags < 8; flags++ {
@@ -193,6 +200,16 @@ func c17Wrap(m *Model, v *Verdict, rng *RNG, et int32, keyb []byte, usage uint32
 	var reused gssapi.WrapToken
 	cmp := func(kind string, tok []byte, exp bool, mustVerify int) {
 		g := goUnwrap(tok, exp, key, usage)
+		if kind == "roundtrip" || kind == "no-checksum" || kind == "short-checksum" {
+			// what decodes encodes again, to the octets it was decoded from (also a token without checksum or payload)
+			var back gssapi.WrapToken
+			if back.Unmarshal(tok, exp) == nil {
+				rb, rerr := back.Marshal()
+				if rerr != nil || !bytes.Equal(rb, tok) {
+					v.Violate("failing-input", "c17:wrap-reencode:"+kind, "a Wrap token that decodes is not encoded again to the same octets", map[string]string{"token": X(tok), "reencoded": X(rb), "error": fmt.Sprint(rerr), "et": itoa(et)})
+				}
+			}
+		}
 		if gr := goUnwrapInto(&reused, tok, exp, key, usage); gr != g {
 			v.Violate("failing-input", "c17:wrap-reused-value:"+kind, "decoding a token into a WrapToken value that held an earlier token gives another result than decoding it into a fresh one", map[string]string{"token": X(tok), "earlier": X(b), "expect": B(exp), "et": itoa(et), "key": X(keyb), "usage": itoa(usage), "fresh": g, "reused": gr})
 		}
@@ -313,6 +330,15 @@ func c17Mic(m *Model, v *Verdict, rng *RNG, et int32, keyb []byte, usage uint32,
 	var reused gssapi.MICToken
 	cmp := func(kind string, tok []byte, exp bool, pl []byte, mustVerify int) {
 		g := goUnmic(tok, exp, key, usage, pl)
+		if kind == "roundtrip" || kind == "no-checksum" {
+			var back gssapi.MICToken
+			if back.Unmarshal(tok, exp) == nil {
+				rb, rerr := back.Marshal()
+				if rerr != nil || !bytes.Equal(rb, tok) {
+					v.Violate("failing-input", "c17:mic-reencode:"+kind, "a MIC token that decodes is not encoded again to the same octets", map[string]string{"token": X(tok), "reencoded": X(rb), "error": fmt.Sprint(rerr), "et": itoa(et)})
+				}
+			}
+		}
 		if gr := goUnmicInto(&reused, tok, exp, key, usage, pl); gr != g {
 			v.Violate("failing-input", "c17:mic-reused-value:"+kind, "decoding a token into a MICToken value that held an earlier token gives another result than decoding it into a fresh one", map[string]string{"token": X(tok), "earlier": X(b), "expect": B(exp), "et": itoa(et), "key": X(keyb), "usage": itoa(usage), "fresh": g, "reused": gr})
 		}
